@@ -308,7 +308,7 @@ PROPERTIES = {
     'C19': dict(
         level='other',
         explanation=(
-            'Proved on the real bodies, for all key and lookup values but key vectors of bounded length (1..6 keys; complete by unwinding for '
+            'Proved on the real bodies, for all key and lookup values but key vectors of bounded length (1..6 keys, thorough tier 1..10; complete by unwinding for '
             'that bound): the scan of MATCH (xmatch) in its three modes over numeric keys, over keys mixed with text of the other type, and '
             'over text keys without wildcards (strictly sorted keys for the approximate modes) returns the position Excel defines; the '
             'LOOKUP/VLOOKUP/HLOOKUP kernel (xlookup) returns the result element at that position; INDEX\'s element selection (_index) returns '
@@ -401,6 +401,9 @@ def _match_contract(n, mt, kind='num'):
 for _n in range(1, MAXLEN + 1):
     for _mt in (1, -1, 0):
         _match_contract(_n, _mt)
+for _n in (7, 8, 9, 10):                     # thorough tier: longer key vectors
+    for _mt in (1, -1, 0):
+        _match_contract(_n, _mt).thorough_only = True
 for _n in (3, 4, 5):
     for _mt in (1, -1, 0):
         _match_contract(_n, _mt, 'mixed')
